@@ -53,6 +53,9 @@ func variablesForArgMode(atom ast.Atom, mode ast.Mode, mask ast.ArgMode) []ast.V
 // - is unified (via an equality) with a constant or bound variable.
 // Also checks that every function application expression has the right number of arguments.
 func (a *Analyzer) CheckRule(clause ast.Clause) error {
+	// ReplaceWildcards keeps the premises in place, origPremises[i] is
+	// clause.Premises[i] with its wildcards still visible.
+	origPremises := clause.Premises
 	clause = clause.ReplaceWildcards()
 	var (
 		boundVars = make(map[ast.Variable]bool)
@@ -79,6 +82,20 @@ func (a *Analyzer) CheckRule(clause ast.Clause) error {
 		}
 	}
 	uf := unionfind.New()
+	// hasValue tells whether the subgoals checked so far (evaluated left to right)
+	// give v a value: it is bound, or unified with a constant or a bound variable.
+	hasValue := func(v ast.Variable) bool {
+		if boundVars[v] {
+			return true
+		}
+		switch x := uf.Get(v).(type) {
+		case ast.Constant:
+			return true
+		case ast.Variable:
+			return boundVars[x]
+		}
+		return false
+	}
 
 	if decl, ok := a.decl[clause.Head.Predicate]; ok {
 
@@ -89,9 +106,32 @@ func (a *Analyzer) CheckRule(clause ast.Clause) error {
 	}
 
 	if clause.Premises != nil {
-		for _, premise := range clause.Premises {
-			ast.AddVars(premise, seenVars)
+		for i, premise := range clause.Premises {
+			if _, isNeg := premise.(ast.NegAtom); !isNeg {
+				ast.AddVars(premise, seenVars)
+			}
 			switch p := premise.(type) {
+			case ast.NegAtom:
+				// A negated atom is looked up with the bindings made by the subgoals to
+				// its left (RewriteClause moves it there when it can). Every variable in
+				// it needs a value at that point. A wildcard argument is read
+				// existentially: "there is no fact, whatever this column holds".
+				if orig, ok := origPremises[i].(ast.NegAtom); ok {
+					p = orig
+				}
+				for _, arg := range p.Atom.Args {
+					if v, ok := arg.(ast.Variable); ok && v.Symbol == "_" {
+						continue
+					}
+					vars := make(map[ast.Variable]bool)
+					ast.AddVars(arg, vars)
+					for v := range vars {
+						if !hasValue(v) {
+							return fmt.Errorf("variable %v in %v will not have a value yet; move the subgoal to the right", v, p)
+						}
+						seenVars[v] = true
+					}
+				}
 			case ast.Atom:
 				if err := checkAtomArity(p); err != nil {
 					return err
